@@ -34,7 +34,7 @@ def slim(o, keys):
     return {k: o[k] for k in keys if k in o}
 
 
-READ_KEYS = ("op", "sym", "n", "pos", "d", "ad", "ap", "runs", "q", "scale", "text", "err", "orient", "ext", "fmt", "panic")
+READ_KEYS = ("op", "sym", "rd", "n", "pos", "d", "ad", "ap", "runs", "q", "scale", "text", "err", "orient", "ext", "fmt", "panic")
 WRITE_KEYS = ("op", "sym", "c", "err", "runs", "lead", "trail", "panic")
 
 
@@ -80,7 +80,7 @@ def c93_seed(rng, k):
 
 def seeds(ctx):
     rng = random.Random(ctx.seed * 104729 + (11 if ctx.quick else 12))
-    f = 1 if ctx.quick else 30
+    f = 1 if ctx.quick else 50
     out = {}          # (sym, stride) -> list of seed records
     def add(sym, stride, p, ad=(), ap=()):
         out.setdefault((sym, stride), []).append(dict(sym=sym, p=list(p), ad=list(ad), ap=list(ap)))
@@ -103,7 +103,11 @@ def seeds(ctx):
         k = 1 + i % 6
         add("C93", 1 if k <= 4 else 3, c93_seed(rng, k))
     for i in range(3 * f):
-        add("C93", 13, c93_seed(rng, rng.randint(10, 40)))
+        add("C93", 13, c93_seed(rng, rng.randint(21, 40) if i == 0 else rng.randint(10, 40)))
+    for i in range(6 * f):                   # Code 39 with the optional modulo-43 check character
+        k = 1 + i % 6
+        add("C39K", 1 if k <= 4 else 3, [rng.randrange(43) for _ in range(k)])
+    add("C39K", 13, [rng.randrange(43) for _ in range(30)])
     # add-ons: every EAN-2 value with every parity pair; seeded EAN-5 values with all 32 parity patterns
     mains = ["EAN13", "UPCA", "EAN8", "UPCE"]
     for v in range(100):
@@ -146,7 +150,12 @@ def generate(ctx):
     with concurrent.futures.ThreadPoolExecutor(max_workers=GENPAR + 4) as ex:
         parts = list(ex.map(one, jobs))
     cases = [c for p in parts for c in p]
-    rng = random.Random(ctx.seed)
+    extra = []
+    for i, c in enumerate(cases):          # a quarter of the UPC/EAN symbols is also shown to the multi-format reader
+        if c["sym"] in EAN and i % 4 == 0:
+            m = dict(c); m["rd"] = "multi"
+            extra.append(m)
+    cases += extra
     for i, c in enumerate(cases):
         c["scale"] = 2 + (i % 2)
         c["q"] = 10 + (i % 5)
@@ -163,7 +172,7 @@ def judge(ctx, inputs, label, keys):
     ctx.traces += 1
     for o in obs:
         if o["op"] == "read":
-            ctx.count_case(("read", o["sym"], o["n"], o["ad"], o["ap"]))
+            ctx.count_case(("read", o["sym"], o["rd"], o["n"], o["ad"], o["ap"]))
         elif o["op"] == "write":
             ctx.count_case(("write", o["sym"], o["c"]))
         else:
@@ -185,15 +194,19 @@ def reads(ctx):
     cases = generate(ctx)
     obs, rej, tol = judge(ctx, cases, "TLC-built symbol", READ_KEYS)
     nsub = sum(1 for c in cases if c["pos"] > 0)
-    nerr = sum(1 for o in obs if o["err"] == 1)
     rev = sum(1 for o in obs if o["err"] == 0 and o["orient"] == 180)
     fwd = sum(1 for o in obs if o["err"] == 0 and o["orient"] == 0 and o["pos"] > 0)
-    ctx.note("%d symbols built by TLC from the spec's tables and read by the real readers: %d single-character "
-             "substitutions (%d refused, %d are themselves valid symbols and read as such, %d read from the reversed "
-             "row of which %d only by the library's tolerant matcher = 'tolerated'), %d add-on cases" % (
-                 len(cases), nsub, sum(1 for o in obs if o["pos"] > 0 and o["err"] == 1), fwd, rev, len(tol),
+    tol_rev = sum(1 for gi, ent in tol if obs[gi]["orient"] == 180)
+    tol_multi = len(tol) - tol_rev
+    ctx.note("%d symbols built by TLC from the spec's tables and read by the real readers (matching reader; UPC/EAN also "
+             "multi-format reader): %d single-character substitutions - %d refused, %d read forward (valid symbols in their "
+             "own right, or tolerated), %d read from the reversed row; tolerated answers with a verifying check digit that the "
+             "exact reference reader does not produce: %d reversed-row readings, %d EAN-8 readings of a longer symbol by the "
+             "multi-format reader; %d add-on cases" % (
+                 len(cases), nsub, sum(1 for o in obs if o["pos"] > 0 and o["err"] == 1), fwd, rev, tol_rev, tol_multi,
                  sum(1 for c in cases if c["ad"])))
-    ctx.extra["tolerated_reversed_readings"] = len(tol)
+    ctx.extra["tolerated_reversed_readings"] = tol_rev
+    ctx.extra["tolerated_multi_format_ean8_readings"] = tol_multi
     for want in (lambda o: o["pos"] > 0 and o["sym"] == "EAN13", lambda o: o["pos"] > 0 and o["sym"] == "UPCE" and o["err"] == 0,
                  lambda o: o["sym"] == "C128" and o["pos"] > 0, lambda o: len(o["ad"]) == 5 and o["ext"]):
         for o in obs:
@@ -204,7 +217,7 @@ def reads(ctx):
 
 def writes(ctx):
     rng = random.Random(ctx.seed * 7907 + 5)
-    f = 1 if ctx.quick else 8
+    f = 1 if ctx.quick else 25
     inputs = []
     def w(sym, c):
         inputs.append(dict(op="write", sym=sym, c=list(c)))
@@ -299,8 +312,10 @@ def run(ctx):
              "with all ten check digits (each payload counted as an evaluation)",
         assumptions=["readers are observed on clean renderings (2-3 pixels per module, quiet zones of 10-14 modules) of "
                      "symbols built from the spec's tables",
-                     "an answer read from the reversed row that the exact reference reader does not produce is tolerated "
-                     "when its check digit verifies (counted in tolerated_reversed_readings)",
+                     "an answer that the exact reference reader does not produce is tolerated when its check digit verifies and it "
+                     "was read from the reversed row (tolerant pattern matcher) or by the multi-format reader as an EAN-8 "
+                     "number of a longer damaged symbol (guard search skips digits); both are counted in the evidence",
+                     "a refused five-digit add-on whose two leading digits form a valid two-digit add-on may be reported as that",
                      "Code 128 / Code 93 character tables are pinned from the baseline after structural validation"],
         trusted=["TLC", "spec/OneDTables.tla, OneD.tla, Check.tla", "harness/c10 (painting of run lengths, run-length "
                  "projection of the written row)"])
